@@ -2,6 +2,7 @@ package main
 
 import (
 	"encoding/json"
+	"os/exec"
 	"fmt"
 	"os"
 	"path/filepath"
@@ -23,6 +24,7 @@ type Report struct {
 	Known                     []knownFinding
 	Bounded                   []map[string]interface{}
 	ExtraAssumptions          []string
+	StandinViolations         []string
 }
 
 type knownFinding struct {
@@ -162,6 +164,17 @@ func (r *Report) finish(evidPath string, verbose bool) int {
 			samples = append(samples, map[string]interface{}{"obligation": o.Name, "kind": o.Kind, "clause": trunc(o.Src, 200), "status": o.Status, "solver": o.Solver, "time_s": round3(o.Time), "query_bytes": o.Size})
 		}
 	}
+	for _, sv := range r.StandinViolations {
+		dir := filepath.Join(r.ReplayDir, r.Prop)
+		os.MkdirAll(dir, 0o755)
+		path := filepath.Join(dir, "bounded_standin.json")
+		b, _ := json.MarshalIndent(map[string]interface{}{"property": r.Prop, "obligation": "bounded stand-in", "failing_input": sv, "failing_input_reproduced_on_real_code": true}, "", " ")
+		os.WriteFile(path, b, 0o644)
+		say("  FAILED  bounded stand-in: %s", trunc(sv, 300))
+		say("VIOLATION property=%s replay=%s obligation=bounded-standin", r.Prop, path)
+		violations++
+		code = 1
+	}
 	say("property=%s tier=%s obligations=%d proved=%d failed=%d undecided=%d known=%d  load=%.1fs gen=%.1fs solve=%.1fs", r.Prop, r.Tier, len(r.Obls), nProved, nFailed, nUnknown, nKnown, r.LoadS, r.GenS, r.SolveS)
 	if bindingErr && code == 0 {
 		code = 3
@@ -293,4 +306,52 @@ func (r *Report) replay(o *Obligation) (string, bool) {
 	b, _ := json.MarshalIndent(rec, "", " ")
 	os.WriteFile(path, b, 0o644)
 	return path, found
+}
+
+// runStandin runs a run-time contract harness as a BOUNDED stand-in (reported separately, never counted as proved)
+func (r *Report) runStandin(harness string, pkgDir string) {
+	src, err := os.ReadFile(harness)
+	if err != nil {
+		r.StandinViolations = append(r.StandinViolations, "stand-in harness missing: "+harness)
+		return
+	}
+	// header comment = description of the bound
+	desc := ""
+	for _, ln := range strings.Split(string(src), "\n") {
+		if strings.HasPrefix(ln, "// ") {
+			desc += strings.TrimPrefix(ln, "// ") + " "
+		} else if strings.HasPrefix(ln, "import") {
+			break
+		}
+	}
+	tmp, _ := os.MkdirTemp("", "govc-standin")
+	defer os.RemoveAll(tmp)
+	tf := filepath.Join(tmp, "t_test.go")
+	os.WriteFile(tf, src, 0o644)
+	ov, _ := json.Marshal(map[string]interface{}{"Replace": map[string]string{filepath.Join(pkgDir, "zz_govc_standin_test.go"): tf}})
+	of := filepath.Join(tmp, "ov.json")
+	os.WriteFile(of, ov, 0o644)
+	n := "400"
+	if r.Tier == "thorough" {
+		n = "20000"
+	}
+	cmd := exec.Command("go", "test", "-tags", "verif", "-overlay", of, "-vet=off", "-count=1", "-timeout", "900s", "-run", "^TestGovcHarness$", "-v", ".")
+	cmd.Dir = pkgDir
+	cmd.Env = append(os.Environ(), "GOFLAGS=-mod=mod", "GOPROXY=off", "GOSUMDB=off", "GOTOOLCHAIN=local", "GOVC_HARNESS_N="+n, fmt.Sprintf("VERIF_SEED=%d", r.Seed+1))
+	out, _ := cmd.CombinedOutput()
+	res := "no result line"
+	for _, ln := range strings.Split(string(out), "\n") {
+		if strings.HasPrefix(ln, "FAILING-INPUT:") {
+			r.StandinViolations = append(r.StandinViolations, strings.TrimSpace(ln[len("FAILING-INPUT:"):]))
+			res = ln
+		}
+		if strings.HasPrefix(ln, "HARNESS-OK") {
+			res = ln
+		}
+	}
+	if res == "no result line" {
+		r.StandinViolations = append(r.StandinViolations, "stand-in did not run: "+trunc(string(out), 400))
+	}
+	r.Bounded = append(r.Bounded, map[string]interface{}{"harness": harness, "package": pkgDir, "bound": strings.TrimSpace(desc), "result": res, "level": "bounded (run-time evaluation of the contract on the real functions; not counted as proved)"})
+	fmt.Println("bounded stand-in:", filepath.Base(harness), "->", res)
 }
